@@ -296,12 +296,11 @@ class RefSem:
                 return l == r
             if n.op == "!=":
                 return l != r
-            if n.op == "+":
-                return l + r
-            if n.op == "-":
-                return l - r
-            if n.op == "*":
-                return l * r
+            if n.op in ("+", "-", "*"):
+                v = l + r if n.op == "+" else (l - r if n.op == "-" else l * r)
+                if isinstance(v, int) and not isinstance(v, bool) and not -2 ** 63 <= v < 2 ** 63:
+                    raise Unmodelled("integer result outside the 64-bit range")
+                return v
             if n.op == "/":
                 if r == 0:
                     raise EvalFault("division by zero")
